@@ -314,6 +314,20 @@ theorem RightSide.facts {S : Schema} {tyN : TypeId} {aN : Attrs} {mN : Marks} {k
     refine ⟨?_, by omega, by rw [spineR_concat_elem, hs]; omega⟩
     rw [depthAt_elem_cons _ _ _ _ _ _ (by omega) (by omega), Nat.add_sub_cancel_left, hd]
 
+theorem LeftSide.zero {S : Schema} {tyN : TypeId} {aN : Attrs} {mN : Marks} {kN : List Node}
+    {fN a : Nat} {lc lp : List Node} (h : LeftSide S tyN aN mN kN fN lc a lp) (ha : a = 0) :
+    fN = 0 ∧ lc = [] ∧ lp = [] := by
+  cases h with
+  | whole => exact ⟨rfl, rfl, rfl⟩
+  | cut _ => omega
+
+theorem RightSide.zero {S : Schema} {tyN : TypeId} {aN : Attrs} {mN : Marks} {kN : List Node}
+    {tN b : Nat} {rc rp : List Node} (h : RightSide S tyN aN mN kN tN rc b rp) (hb : b = 0) :
+    tN = 2 + fsize kN ∧ rc = [] ∧ rp = [] := by
+  cases h with
+  | whole => exact ⟨rfl, rfl, rfl⟩
+  | cut _ => omega
+
 /-- **the whole replace of a lift** below the level of `node(target)` -/
 theorem replaceKids_lift {S : Schema} (hts : TextStableP S) {ty tyP : TypeId} {K : List Node} {b nd : Nat}
     {ctx : List Node → List Node} {preT postT : List Node} {tyN : TypeId} {aN : Attrs} {mN : Marks}
@@ -831,5 +845,231 @@ theorem lift_payload (S : Schema) {tyN : TypeId} {aN : Attrs} {mN : Marks} {kN m
       | cons n rest =>
         rw [hmr] at hr
         simp only [List.cons_append, List.nil_append, List.append_assoc, hmr, openValid, hm, i1, hr, Bool.and_self]
+
+/-! ### from the final loop states to the two sides -/
+
+theorem LInv.side {S : Schema} {doc : Node} {f : RPos} {gs depth target : Nat} {frag : List Node}
+    {opened moved : Nat} {acc : Option Node} {ok : Bool}
+    (h : LInv S doc f gs depth target 0 frag opened moved acc.isSome acc ok) (hok : ok = true)
+    {tyN : TypeId} {aN : Attrs} {mN : Marks} {kN : List Node}
+    (eN : f.node (target + 1) = .elem tyN aN mN kN) (preT : List Node)
+    (hpre : preT = (f.node target).kids.take (f.index target))
+    (hst : f.start (target + 1) = f.start target + fsize preT + 1) :
+    ∃ fN, LeftSide S tyN aN mN kN fN frag opened acc.toList ∧
+      gs - moved = f.start target + (fsize preT + fN) ∧ IsCopy frag ∧ opened ≤ fsize frag := by
+  obtain ⟨_, _, h3⟩ := h
+  simp only [Nat.add_zero] at h3
+  rcases h3 with ⟨_, rfl, rfl, rfl, hb⟩ | ⟨_, _, ty, a, m, kids, W, XL, e1, rfl, rfl, rfl, hst', hcut⟩
+  · exact ⟨0, .whole, by rw [hb, ← hpre]; omega, .inl rfl, by simp⟩
+  · rw [eN] at e1
+    simp only [Node.elem.injEq] at e1
+    obtain ⟨rfl, rfl, rfl, rfl⟩ := e1
+    have hc := hcut hok
+    obtain ⟨_, _, hW, _, hnW⟩ := hc.depth
+    exact ⟨1 + (gs - moved - f.start (target + 1)), .cut hc, by omega, .inr ⟨_, _, _, _, rfl, hnW⟩,
+      by simp; omega⟩
+
+theorem RInv.side {S : Schema} {doc : Node} {t : RPos} {ge depth target : Nat} {frag : List Node}
+    {opened moved : Nat} {acc : Option Node} {ok : Bool}
+    (h : RInv S doc t ge depth target 0 frag opened moved acc.isSome acc ok) (hok : ok = true)
+    {tyN : TypeId} {aN : Attrs} {mN : Marks} {kN : List Node}
+    (eN : t.node (target + 1) = .elem tyN aN mN kN) (preT : List Node)
+    (hst : t.start (target + 1) = t.start target + fsize preT + 1)
+    (hwhole : fsize ((t.node target).kids.take (t.indexAfter target)) = fsize preT + (2 + fsize kN)) :
+    ∃ tN, RightSide S tyN aN mN kN tN frag opened acc.toList ∧
+      ge + moved = t.start target + (fsize preT + tN) ∧ IsCopy frag := by
+  obtain ⟨_, h3⟩ := h
+  simp only [Nat.add_zero] at h3
+  rcases h3 with ⟨_, rfl, rfl, rfl, hb⟩ | ⟨_, _, ty, a, m, kids, W, XR, e1, rfl, rfl, rfl, hst', hcut⟩
+  · exact ⟨2 + fsize kN, .whole, by rw [hb, hwhole], .inl rfl⟩
+  · rw [eN] at e1
+    simp only [Node.elem.injEq] at e1
+    obtain ⟨rfl, rfl, rfl, rfl⟩ := e1
+    have hc := hcut hok
+    obtain ⟨_, _, hW, _, hnW⟩ := hc.depth
+    exact ⟨1 + (ge + moved - t.start (target + 1)), .cut hc, by omega, .inr ⟨_, _, _, _, rfl, hnW⟩⟩
+
+/-! ### an approved lift applies -/
+
+/-- **`lift_target` approves ∧ the pieces the split leaves are valid (`liftGuardR`) ∧ `TextStable` ⇒ the lift step
+    applies**, and its payload (the gap's content placed between the two nests) is valid -/
+theorem lift_applies (S : Schema) (hts : TextStableP S) (ty0 : TypeId) (a0 : Attrs) (m0 : Marks)
+    (K : List Node) (a b depth target : Nat) (f t : RPos) (st : Step)
+    (hf : (Node.elem ty0 a0 m0 K).resolve a = some f) (ht : (Node.elem ty0 a0 m0 K).resolve b = some t)
+    (hv : S.checkNode (.elem ty0 a0 m0 K) = true) (hn : fnorm K = true)
+    (hab : a ≤ b) (hend : b ≤ f.end_ depth)
+    (hfb : depth < f.depth ∨ f.textOffset = 0) (htb : depth < t.depth ∨ t.textOffset = 0)
+    (hg : liftGuardR S f t depth target = true)
+    (hc : liftTargetR S f t depth = some (some target))
+    (hb : liftStepR f t depth target = .ok st) :
+    (∃ doc', S.apply st (.elem ty0 a0 m0 K) = .ok doc') ∧
+    ∃ f' t' gs ge sl i, st = .replaceAround f' t' gs ge sl i true ∧
+      ∀ gap ins, (Node.elem ty0 a0 m0 K).slice gs ge = .ok gap →
+        Slice.insertAt S sl i gap.content = .ok (some ins) →
+        openValid S ins.openStart ins.openEnd ins.content = true := by
+  have Rf := resolve_resolved hf
+  have Rt := resolve_resolved ht
+  -- the approval
+  unfold liftTargetR at hc
+  split at hc
+  · simp at hc
+  rename_i hdd
+  simp only [Bool.or_eq_true, decide_eq_true_eq, not_or, Nat.not_lt] at hdd
+  obtain ⟨hdf, hdt⟩ := hdd
+  obtain ⟨_, htd, _, _⟩ := liftLoop_spec S f t depth _ depth target hc
+  -- the range
+  unfold liftStepR at hb
+  cases hgs : f.before (depth + 1) with
+  | none => simp [hgs] at hb
+  | some gs =>
+  cases hge : t.after (depth + 1) with
+  | none => simp [hgs, hge] at hb
+  | some ge =>
+  simp only [hgs, hge] at hb
+  obtain ⟨pre, mid, post, hkD, hnodeD, hpre, hmid, hpost, hij, hial, hgs', hge'⟩ :=
+    range_level hf ht hn depth hab hdf hdt hend hfb htb gs ge hgs hge
+  have pf := Rf.pos_in depth hdf
+  have pt := Rt.pos_in depth hdt
+  have same := same_ancestors Rf Rt depth b hdf hdt (by omega) hend pt.1 pt.2
+  have hnD := path_fnorm Rf hn depth hdf
+  -- the left loops
+  have hLinit : LInv S (Node.elem ty0 a0 m0 K) f gs depth target (depth - target) [] 0 0 false none true :=
+    ⟨Nat.zero_le _, fun i h1 h2 => by omega,
+      .inl ⟨rfl, rfl, rfl, rfl, by rw [show target + (depth - target) = depth by omega, ← hpre]; omega⟩⟩
+  obtain ⟨before, oS, mL, accL, okL, hsideL, hpiecesL, hfinL⟩ :=
+    left_loop S hf gs depth target hdf (depth - target) [] 0 0 false none true (by omega) hLinit
+  -- the right loops
+  have htake : (f.node depth).kids.take (t.indexAfter depth) = pre ++ mid := by
+    rw [hpre, hmid]
+    unfold cutByIndex
+    have : (f.node depth).kids.take (f.index depth)
+        = ((f.node depth).kids.take (t.indexAfter depth)).take (f.index depth) := by
+      rw [List.take_take, Nat.min_eq_left hij]
+    rw [this, List.take_append_drop]
+  have hbR : ∀ d, target < d → d ≤ depth →
+      t.afterT (d + 1) = t.start d + fsize ((t.node d).kids.take (t.indexAfter d)) := by
+    intro d h1 h2
+    rcases Nat.lt_or_ge d depth with hlt | hge2
+    · obtain ⟨hc', _⟩ := Rt.chain d (by omega)
+      have hp : (t.entry d).pos = t.start d + fsize ((t.node d).kids.take (t.index d)) :=
+        (Rt.entry d (by omega)).pos_eq
+      have hia : t.indexAfter d = t.index d + 1 := by
+        unfold RPos.indexAfter
+        rw [if_neg (by simp; omega)]
+      unfold RPos.afterT
+      rw [if_neg (by omega), hia, fsize_take_succ _ _ _ hc']
+      simp only [Nat.add_sub_cancel]
+      omega
+    · have : d = depth := by omega
+      subst this
+      rw [afterT_of_after hge, hnodeD, htake, fsize_append, ← (same d (Nat.le_refl _)).2.1]
+      omega
+  have hRinit : RInv S (Node.elem ty0 a0 m0 K) t ge depth target (depth - target) [] 0 0 false none true :=
+    ⟨fun i h1 h2 => by omega,
+      .inl ⟨rfl, rfl, rfl, rfl, by
+        rw [show target + (depth - target) = depth by omega, hnodeD, htake, fsize_append,
+          ← (same depth (Nat.le_refl _)).2.1]
+        omega⟩⟩
+  obtain ⟨after, oE, mR, accR, okR, hsideR, hpiecesR, hfinR⟩ :=
+    right_loop S ht ge depth target hdt hbR (depth - target) [] 0 0 false none true (by omega) hRinit
+  -- the step and the guard
+  rw [hsideL, hsideR] at hb
+  simp only [Except.ok.injEq] at hb
+  subst hb
+  unfold liftGuardR at hg
+  rw [hpiecesL, hpiecesR] at hg
+  simp only [Bool.and_eq_true] at hg
+  obtain ⟨⟨hokL, hokR⟩, hvT⟩ := hg
+  -- the level of `node(target)`
+  obtain ⟨tyN, aN, mN, kN, eN, hspT, hstT, _, _⟩ := Resolved.level_deep hf target (by omega)
+  have hiaT : t.indexAfter target = f.index target + 1 := by
+    unfold RPos.indexAfter
+    rw [if_neg (by simp; omega), (same target (by omega)).2.2.2 htd]
+  rw [hiaT, ← hmid] at hvT
+  generalize hpreT : (f.node target).kids.take (f.index target) = preT at hspT hstT hvT
+  generalize hpostT : (f.node target).kids.drop (f.index target + 1) = postT at hspT hvT
+  have hprelen : preT.length = f.index target := by
+    rw [← hpreT, List.length_take]
+    have := Rf.index_le target (by omega)
+    omega
+  have eNt : t.node (target + 1) = .elem tyN aN mN kN := by rw [← (same (target + 1) (by omega)).1]; exact eN
+  have hsT := (same target (by omega)).2.1
+  have hsT1 := (same (target + 1) (by omega)).2.1
+  have hwhole : fsize ((t.node target).kids.take (t.indexAfter target)) = fsize preT + (2 + fsize kN) := by
+    rw [← (same target (by omega)).1, hiaT, hspT, ← hprelen, take_mid, fsize_append]
+    simp
+  obtain ⟨fN, hL, hposL, hcL, hoS⟩ := hfinL.side hokL eN preT hpreT.symm hstT
+  obtain ⟨tN, hR, hposR, hcR⟩ := hfinR.side hokR eNt preT (by rw [← hsT, ← hsT1]; exact hstT) hwhole
+  rw [← hsT] at hposR
+  obtain ⟨_, hfle, _⟩ := hL.facts postT []
+  obtain ⟨_, htle, _⟩ := hR.facts postT []
+  -- the two levels
+  obtain ⟨tyP, aP, mP, ctx, eP, hlT⟩ := Resolved.lvl hf hn target (by omega)
+  obtain ⟨tyD, aD, mD, ctxD, eD, hlD⟩ := Resolved.lvl hf hn depth hdf
+  have hnT := hlT.norm hn
+  rw [hspT] at hlT hnT
+  rw [hkD] at hlD hnD
+  have hrT := hlT.range
+  have hszT : fsize (preT ++ Node.elem tyN aN mN kN :: postT) = fsize preT + (2 + fsize kN) + fsize postT := by
+    simp [fsize_append]; omega
+  have hnmid : fnorm mid = true := fnorm_append_right (fnorm_append_left hnD)
+  have htyP : S.tyOf (f.node target) = tyP := by rw [eP]; rfl
+  rw [htyP] at hvT
+  -- the gap
+  have hslice := sliceKids_children hlD hnD
+  rw [← hgs', ← hge'] at hslice
+  -- the structure flag's guard
+  have hcb1 : contentBetween (Node.elem ty0 a0 m0 K) (gs - mL) gs = some false :=
+    contentBetween_closesOpens (Node.elem ty0 a0 m0 K) _ _ hn (by omega) (by show _ ≤ fsize K; omega)
+      (hfinL.2.1.closesOpens (by omega))
+  have hcb2 : contentBetween (Node.elem ty0 a0 m0 K) ge (ge + mR) = some false := by
+    have := hfinR.1.closesOpens (Nat.le_add_right ge mR)
+    rw [Nat.add_sub_cancel_left] at this
+    refine contentBetween_closesOpens (Node.elem ty0 a0 m0 K) _ _ hn (by omega) (by show _ ≤ fsize K; omega) ?_
+    rw [Nat.add_sub_cancel_left]
+    exact this
+  -- the gap's content between the two nests
+  have hins := insertAt_lift S mid oS oE hcL hcR hoS
+  -- the replace
+  have hvT' : S.validContent tyP (preT ++ (accL.toList ++ mid ++ accR.toList ++ postT)) = true := by
+    simpa only [List.append_assoc] using hvT
+  have hrep : replaceKids S ty0 K (gs - mL) (ge + mR) ⟨before ++ mid ++ after, oS, oE⟩
+      = .ok (ctx (fromArray (preT ++ (accL.toList ++ mid ++ accR.toList ++ postT)))) := by
+    rw [hposL, hposR]
+    by_cases hsplit : oS ≠ 0 ∨ oE ≠ 0
+    · exact replaceKids_lift hts hlT hL hR hsplit (by omega) hnT hvT'
+    · have h0 : oS = 0 ∧ oE = 0 := by omega
+      obtain ⟨e1, e2, e3⟩ := hL.zero h0.1
+      obtain ⟨e4, e5, e6⟩ := hR.zero h0.2
+      rw [e3, e6] at hvT'
+      rw [e1, e2, e3, e4, e5, e6, h0.1, h0.2]
+      have hlT' : Lvl ty0 K (f.start target) target tyP (preT ++ [Node.elem tyN aN mN kN] ++ postT) ctx := by
+        simpa using hlT
+      have := replaceKids_children hts hlT' mid hnmid (by simpa using hnT)
+        (by simpa [List.append_assoc] using hvT')
+      simpa [List.append_assoc] using this
+  have hpay : openValid S oS oE (before ++ mid ++ after) = true := by
+    have hvN : S.checkNode (Node.elem tyN aN mN kN) = true := by
+      rw [← eN]; exact path_valid S Rf hv (target + 1) (by omega)
+    have hvc : S.validContent ty0 K = true ∧ S.checkKids K = true := by
+      rw [checkNode_elem] at hv
+      simp only [Bool.and_eq_true] at hv
+      exact ⟨hv.1.1, hv.2⟩
+    obtain ⟨_, ck, _⟩ := hlD.valid hvc.1 hvc.2 hn
+    rw [checkKids_append, checkKids_append] at ck
+    simp only [Bool.and_eq_true] at ck
+    exact lift_payload S hL hR hvN ck.1.2
+  constructor
+  · simp only [Schema.apply, if_true, hcb1, hcb2, Node.slice, Node.kids, hslice, hins, Schema.fromReplace,
+      Schema.replace, hrep]
+    exact ⟨_, rfl⟩
+  · refine ⟨_, _, _, _, _, _, rfl, ?_⟩
+    intro gap ins h1 h2
+    simp only [Node.slice, Node.kids, hslice, Except.ok.injEq] at h1
+    subst h1
+    rw [hins] at h2
+    simp only [Except.ok.injEq, Option.some.injEq] at h2
+    subst h2
+    exact hpay
 
 end PM
